@@ -21,11 +21,17 @@ EXTENDS Sequences, Naturals, FiniteSets
 \* t: file | dir | symlink;  n: name;  to: "outdir" | "outfile" | "" (symlink target, relative path to
 \* the sentinel directory / file outside the target);  hl: member of the hard-link group (links=2, same inode)
 \* kids: children of a directory (sequence of child letters, see Kid)
-N(t, n, to, hl, kids) == [t |-> t, n |-> n, to |-> to, hl |-> hl, kids |-> kids]
+\* m: mode class -- "ok" = mode bits consistent with the type (what restic's backup writes); otherwise the node's
+\* fields are mutually INCONSISTENT (only somebody with repository access can write that):
+\*   "perm" 0777 without any type bit, "reg" 0644 without type bit, "dirbit" ModeDir|0755, "symbit" ModeSymlink|0777,
+\*   "setuid" ModeSetuid|0755 without type bit
+NM(t, n, to, hl, kids, m) == [t |-> t, n |-> n, to |-> to, hl |-> hl, kids |-> kids, m |-> m]
+N(t, n, to, hl, kids) == NM(t, n, to, hl, kids, "ok")
 
 \* children alphabet (by letter):
 \*  "f"  file x          "s" symlink x -> outdir      "t" symlink x -> outfile
 \*  "d"  dir x {file y}  "e" file named "../../esc"   "u" file named ".."
+\*  "S"  symlink x -> outdir with mode 0777 (no symlink bit)   "T" symlink x -> outfile with mode 0777 (no symlink bit)
 KidSeqs == { <<>>, <<"f">>, <<"s">>, <<"f","t">>, <<"s","f">>, <<"d">>, <<"s","d">>, <<"e">>, <<"u">> }
 
 \* nodes that all use the name "a" (plus the hard-link partner "b"): sequences of them give every
@@ -41,7 +47,19 @@ InvalidAlpha ==
   \cup { N("dir", n, "", FALSE, <<"f">>) : n \in InvalidNames }
   \cup { N("symlink", n, "outdir", FALSE, <<>>) : n \in InvalidNames }
 
+\* nodes whose type and mode disagree (and special types with odd modes), pointing at outside files AND dirs
+InconsAlpha ==
+  { NM("symlink", "a", to, FALSE, <<>>, m) : to \in {"outdir", "outfile"}, m \in {"perm", "reg", "dirbit", "setuid"} }
+  \cup { NM("file", "a", "", FALSE, <<>>, m) : m \in {"symbit", "dirbit"} }
+  \cup { NM("dir", "a", "", FALSE, k, m) : k \in {<<"f">>, <<"s">>, <<"S">>, <<"T">>}, m \in {"symbit", "perm", "ok"} }
+  \cup { NM(t, "a", "", FALSE, <<>>, m) : t \in {"fifo", "chardev"}, m \in {"ok", "symbit", "dirbit"} }
+
 SeqsUpTo(S, k) == UNION {[1..n -> S] : n \in 1..k}
+
+InconsTrees ==
+  { <<x>> : x \in InconsAlpha }
+  \cup { <<x, N("file", "b", "", FALSE, <<>>)>> : x \in InconsAlpha }
+  \cup { <<N("file", "b", "", TRUE, <<>>), x>> : x \in InconsAlpha }
 
 Trees ==
   SeqsUpTo(SwapAlpha, 3)
@@ -49,6 +67,8 @@ Trees ==
   \cup { <<x, N("file", "a", "", FALSE, <<>>)>> : x \in InvalidAlpha }
   \cup { <<N("dir", "a", "", FALSE, <<"f">>), x>> : x \in InvalidAlpha }
   \cup { <<N("dir", "a", "", FALSE, k)>> : k \in KidSeqs }
+  \cup InconsTrees
+
 
 \* ---- environments --------------------------------------------------------
 \* pre-existing item at target/a, and (if that is a directory) at target/a/x
